@@ -43,6 +43,7 @@ type cfg struct {
 	K         int
 	CON       bool
 	BlockWise bool
+	TokFamily bool   // caller-chosen tokens of different lengths that share bytes: b0, b000, 00b0
 	Collide   string // "" | "reuse" (caller K reuses caller 0's outstanding token) | "race" (callers 0 and 1 use the same token concurrently)
 	Preempt   int
 	Env       int
@@ -50,10 +51,12 @@ type cfg struct {
 }
 
 func (c cfg) String() string {
-	return fmt.Sprintf("%s callers=%d con=%v blockwise=%v bigbody=%v collide=%q preempt<=%d env<=%d", c.T, c.K, c.CON, c.BlockWise, c.BigBody, c.Collide, c.Preempt, c.Env)
+	return fmt.Sprintf("%s callers=%d con=%v blockwise=%v bigbody=%v collide=%q token-family=%v preempt<=%d env<=%d", c.T, c.K, c.CON, c.BlockWise, c.BigBody, c.Collide, c.TokFamily, c.Preempt, c.Env)
 }
 
 type caller struct {
+	cancel  context.CancelFunc
+	gaveUp  bool
 	token   message.Token
 	done    bool
 	err     error
@@ -85,18 +88,22 @@ func scenario(c cfg, mk func() transport) *mcx.Scenario {
 				for i := 0; i < n; i++ {
 					i := i
 					tok := message.Token{0xB0 + byte(i)}
+					if c.TokFamily {
+						tok = []message.Token{{0xB0}, {0xB0, 0x00}, {0x00, 0xB0}, {0xB0, 0x00, 0x00}}[i]
+					}
 					if c.Collide == "race" && i == 1 {
 						tok = message.Token{0xB0}
 					}
 					if c.Collide == "reuse" && i == n-1 {
 						tok = message.Token{0xB0}
 					}
-					callers[i] = &caller{token: tok}
+					cctx, ccancel := context.WithCancel(context.Background())
+					callers[i] = &caller{token: tok, cancel: ccancel}
 					vrt.App(fmt.Sprintf("caller%d", i), func() {
 						if c.Collide == "reuse" && i == n-1 {
 							vrt.WaitUntil("reuser waits until the first request is on the wire", func() bool { return onWire[0] })
 						}
-						req := tr.Acquire(context.Background())
+						req := tr.Acquire(cctx)
 						req.SetCode(codes.GET)
 						req.SetToken(tok)
 						_ = req.SetPath(fmt.Sprintf("/res%d", i)) // distinct paths: the endpoint limiter never serialises them
@@ -141,7 +148,7 @@ func scenario(c cfg, mk func() transport) *mcx.Scenario {
 				var pending []*pend
 				byTok := map[string]*pend{}
 				nonce := 0
-				dups, unknowns := 0, 0
+				dups, unknowns, giveUps := 0, 0, 0
 				serveBlock := func(p *pend, req message.Message) bool {
 					// continuation request of a block-wise download: answer block NUM directly
 					v, err := req.Options.GetUint32(message.Block2)
@@ -227,6 +234,13 @@ func scenario(c cfg, mk func() transport) *mcx.Scenario {
 							acts = append(acts, act{"dup", p, 1})
 						}
 					}
+					if giveUps < 1 && c.Collide == "" {
+						for _, p := range pending {
+							if !p.answered && p.idx >= 0 && !callers[p.idx].gaveUp {
+								acts = append(acts, act{"giveup", p, 1})
+							}
+						}
+					}
 					if unknowns < 1 && len(pending) > 0 {
 						acts = append(acts, act{"unknown", pending[0], 1})
 					}
@@ -299,6 +313,11 @@ func scenario(c cfg, mk func() transport) *mcx.Scenario {
 						m := resp(message.Confirmable, tr.PeerMID())
 						p.answered, p.last = true, &m
 						tr.Inject(m)
+					case "giveup":
+						// the caller stops waiting; the peer may still answer later (a delayed response)
+						giveUps++
+						callers[p.idx].gaveUp = true
+						callers[p.idx].cancel()
 					case "dup":
 						dups++
 						tr.Inject(*p.last)
@@ -320,6 +339,10 @@ func scenario(c cfg, mk func() transport) *mcx.Scenario {
 						continue
 					}
 					out = append(out, fmt.Sprintf("%d:%v/%v/%s", i, cl.done, cl.err != nil, cl.gotBody))
+					if cl.done && cl.err != nil && c.Collide == "" && !cl.gaveUp &&
+						(errors.Is(cl.err, coapErrors.ErrKeyAlreadyExists) || strings.Contains(cl.err.Error(), "invalid token")) {
+						fail("distinct-token-request-rejected", "caller %d (token %x, distinct from all other tokens) was rejected: %v", i, []byte(cl.token), cl.err)
+					}
 					if !cl.done || cl.err != nil {
 						continue
 					}
@@ -383,6 +406,7 @@ func main() {
 				scs = append(scs, scenario(cfg{T: t.name, K: 2, CON: con, BlockWise: bw, Collide: "reuse", Preempt: pb, Env: 0}, mk))
 				scs = append(scs, scenario(cfg{T: t.name, K: 2, CON: con, BlockWise: bw, Collide: "race", Preempt: ev.Pick(r, 1, 2), Env: 0}, mk))
 			}
+			scs = append(scs, scenario(cfg{T: t.name, K: 3, CON: con, TokFamily: true, Preempt: 0, Env: ev.Pick(r, 0, 1)}, mk))
 			scs = append(scs, scenario(cfg{T: t.name, K: 3, CON: con, Preempt: ev.Pick(r, 0, 1), Env: ev.Pick(r, map[bool]int{true: 0, false: 1}[con], 2)}, mk))
 			scs = append(scs, scenario(cfg{T: t.name, K: 2, CON: con, BlockWise: true, BigBody: true, Preempt: ev.Pick(r, 0, 1), Env: 1}, mk))
 			if r.Thorough() {
